@@ -17,6 +17,8 @@ type vecState struct {
 	elem    string // rwCounter | lazyRWCounter | rwGauge
 	keys    [][]Value
 	metrics []Value
+	parent  *vecState // curried vector: shares the parent's table
+	fixed   []Value   // curried (leftmost) label values
 }
 
 func (ex *Exec) promextType(name string) types.Type {
@@ -44,10 +46,10 @@ func init() {
 	intrinsics[promextPath+".NewRWCounterVec"] = mkVec("rwCounter")
 	intrinsics[promextPath+".NewLazyRWCounterVec"] = mkVec("lazyRWCounter")
 	intrinsics[promextPath+".NewRWGaugeVec"] = mkVec("rwGauge")
-	with := func(ex *Exec, fr *frame, fn *ssa.Function, args []Value) Value {
-		p, ok := args[0].(*Value)
+	findVec := func(ex *Exec, v Value) *vecState {
+		p, ok := v.(*Value)
 		if !ok || p == nil {
-			ex.fail("nil-deref", "WithLabelValues on nil vector")
+			ex.fail("nil-deref", "method on nil metric vector")
 		}
 		vs := ex.vecs[p]
 		if vs == nil {
@@ -59,11 +61,43 @@ func init() {
 			}
 		}
 		if vs == nil {
-			panic(unsupported{"WithLabelValues on a vector not created by promext.New*Vec"})
+			panic(unsupported{"metric vector not created by promext.New*Vec"})
 		}
+		return vs
+	}
+	curry := func(ex *Exec, fr *frame, fn *ssa.Function, args []Value) Value {
+		vs := findVec(ex, args[0])
+		m, _ := args[1].(*MapV)
+		var fixed []Value
+		if m != nil {
+			for i := range m.keys {
+				if m.alive[i] {
+					fixed = append(fixed, m.vals[i])
+				}
+			}
+		}
+		p := new(Value)
+		*p = ex.zero(deref(fn.Signature.Results().At(0).Type()))
+		root := vs
+		pre := append([]Value{}, vs.fixed...)
+		if vs.parent != nil {
+			root = vs.parent
+		}
+		ex.vecs[p] = &vecState{n: vs.n - len(fixed), elem: vs.elem, parent: root, fixed: append(pre, fixed...)}
+		return p
+	}
+	for _, v := range []string{"RWCounterVec", "LazyRWCounterVec", "RWGaugeVec"} {
+		intrinsics["(*"+promextPath+"."+v+").MustCurryWith"] = curry
+	}
+	with := func(ex *Exec, fr *frame, fn *ssa.Function, args []Value) Value {
+		vs := findVec(ex, args[0])
 		lvs, _ := args[1].(SliceV)
 		if len(lvs.A) != vs.n {
 			ex.goPanicNow("inconsistent label cardinality")
+		}
+		if vs.parent != nil {
+			lvs = SliceV{A: append(append([]Value{}, vs.fixed...), lvs.A...)}
+			vs = vs.parent
 		}
 		validFn := ex.stdFunc("unicode/utf8", "ValidString")
 		for _, lv := range lvs.A {
